@@ -192,6 +192,10 @@ def _execute(spec, ses):
                     if nvals or not alt["fuse"] or alt.get("config_method"):
                         nontrivial = True
                     if not eq:
+                        if not spec.get("no_gate") and not ses.reference_is_self_consistent(base[t], ref.obs, refw, det=d):
+                            # the default-knob query disagrees with its own unoptimized execution: no well-defined reference
+                            counters["inconsistent_reference"] = counters.get("inconsistent_reference", 0) + 1
+                            continue
                         return _done({"verdict": "violation", "oracle": "knob_divergence", "signature": _sig(r2, alt, why),
                                       "detail": why, "alt": ai, "target": t}, ses, counters, spec, probes)
                 elif got.cls == "refusal":
